@@ -37,8 +37,10 @@ def nulFree (s : Bytes) : Prop := ∀ b ∈ s, b ≠ 0
 
 instance (s : Bytes) : Decidable (nulFree s) := by unfold nulFree; infer_instance
 
-/-- ASCII helper for model-side literals. -/
-def ascii (s : String) : Bytes := s.toUTF8.toList
+/-- ASCII helper for model-side literals (every literal in the model is plain ASCII, for
+    which this is the UTF-8 encoding); defined through `String.toList` so that the kernel can
+    evaluate it (`decide`). -/
+def ascii (s : String) : Bytes := s.toList.map fun c => UInt8.ofNat c.toNat
 
 /-- `strconv.Itoa` / `%d` for a natural number. -/
 def natDigits : Nat → Nat → List UInt8
